@@ -33,6 +33,10 @@ int creds_issue(const CertSpec *spec, const SM2_KEY *subject_key, const Ident *i
 		if (x509_exts_add_basic_constraints(exts, &extslen, sizeof(exts), X509_critical,
 			spec->bc == 1 ? 1 : 0, spec->pathlen) != 1) return -1;
 	}
+	if (spec->eku) {
+		int kp[1] = { spec->eku == 1 ? OID_kp_server_auth : OID_kp_client_auth };
+		if (x509_exts_add_ext_key_usage(exts, &extslen, sizeof(exts), X509_non_critical, kp, 1) != 1) return -1;
+	}
 	out->certlen = 0;
 	p = out->cert;
 	size_t need = 0;
@@ -68,6 +72,7 @@ void creds_chain(const CredSet *cs, int server, uint8_t *out, size_t *outlen)
 	for (int i = 0; i < cs->depth - 1; i++) append(out, outlen, &cs->sub[i]);
 }
 
+static int g_build_eku;
 int creds_build(CredSet *cs, int depth, int tlcp)
 {
 	SM2_KEY k;
@@ -94,15 +99,15 @@ int creds_build(CredSet *cs, int depth, int tlcp)
 	}
 
 	if (sm2_key_generate(&k) != 1) return -1;
-	s = (CertSpec){ "server.sim", 0, -1, X509_KU_DIGITAL_SIGNATURE, nb, na };
+	s = (CertSpec){ "server.sim", 0, -1, X509_KU_DIGITAL_SIGNATURE, nb, na, g_build_eku ? 1 : 0 };
 	if (creds_issue(&s, &k, issuer, &cs->srv_sign) != 1) return -1;
 	if (tlcp) {
 		if (sm2_key_generate(&k) != 1) return -1;
-		s = (CertSpec){ "server.sim", 0, -1, X509_KU_KEY_ENCIPHERMENT, nb, na };
+		s = (CertSpec){ "server.sim", 0, -1, X509_KU_KEY_ENCIPHERMENT, nb, na, g_build_eku ? 1 : 0 };
 		if (creds_issue(&s, &k, issuer, &cs->srv_enc) != 1) return -1;
 	}
 	if (sm2_key_generate(&k) != 1) return -1;
-	s = (CertSpec){ "client.sim", 0, -1, X509_KU_DIGITAL_SIGNATURE, nb, na };
+	s = (CertSpec){ "client.sim", 0, -1, X509_KU_DIGITAL_SIGNATURE, nb, na, g_build_eku ? 2 : 0 };
 	if (creds_issue(&s, &k, issuer, &cs->cli_sign) != 1) return -1;
 
 	cs->trust_len = 0;
@@ -123,6 +128,23 @@ const CredSet *creds_get(int depth, int tlcp)
 		/* the same credentials in every process, whatever was built before */
 		sim_ambient_entropy_seed(0xC0FFEE00 + (uint64_t)depth * 2 + (uint64_t)tlcp);
 		if (creds_build(&cache[depth][tlcp], depth, tlcp) != 1) die("creds_build failed depth=%d tlcp=%d", depth, tlcp);
+		have[depth][tlcp] = 1;
+	}
+	return &cache[depth][tlcp];
+}
+
+const CredSet *creds_get_eku(int depth, int tlcp)
+{
+	static CredSet cache[4][2];
+	static int have[4][2];
+	if (depth < 1 || depth > 3) die("bad depth %d", depth);
+	if (!have[depth][tlcp]) {
+		if (t_task >= 0) die("creds_get_eku(%d,%d) first used inside a task", depth, tlcp);
+		sim_ambient_entropy_seed(0xC0FFEE80 + (uint64_t)depth * 2 + (uint64_t)tlcp);
+		g_build_eku = 1;
+		int ret = creds_build(&cache[depth][tlcp], depth, tlcp);
+		g_build_eku = 0;
+		if (ret != 1) die("creds_build (eku) failed depth=%d tlcp=%d", depth, tlcp);
 		have[depth][tlcp] = 1;
 	}
 	return &cache[depth][tlcp];
@@ -239,4 +261,33 @@ size_t creds_extra_roots(int n, uint8_t *out, size_t cap)
 		len += roots[i].certlen;
 	}
 	return len;
+}
+
+/* ------------------------------------------------- a prover that cannot sign */
+/* Seam on the signing primitive (-Wl,--wrap=sm2_sign_finish): while armed, every signature made by tasks of
+ * one node is replaced by bytes that are not a signature of that key over that message.  Unlike a rewrite on
+ * the wire, the prover's own transcript contains what it sent, so only the signature check itself stands
+ * between the junk and a completed handshake. */
+int g_junk_sig_node = -1, g_junk_sig_form, g_junk_sig_fired;
+uint64_t g_junk_sig_seed;
+int __real_sm2_sign_finish(SM2_SIGN_CTX *ctx, uint8_t *sig, size_t *siglen);
+int __wrap_sm2_sign_finish(SM2_SIGN_CTX *ctx, uint8_t *sig, size_t *siglen)
+{
+	int ret = __real_sm2_sign_finish(ctx, sig, siglen);
+	if (ret != 1 || t_task < 0 || g_junk_sig_node < 0 || sim_cur()->node != g_junk_sig_node) return ret;
+	Rng r;
+	rng_seed(&r, g_junk_sig_seed + (uint64_t)g_junk_sig_fired, 0x51c);
+	g_junk_sig_fired++;
+	switch (g_junk_sig_form % 6) {
+	case 0: rng_bytes(&r, sig, 64); *siglen = 64; if (sig[0] == 0x30) sig[0] = 0x55; break;          /* raw r || s */
+	case 1: sig[0] = 0x04; sig[1] = 64; rng_bytes(&r, sig + 2, 64); *siglen = 66; break;              /* OCTET STRING */
+	case 2: sig[0] = 0x00; *siglen = 1; break;                                                        /* a single byte */
+	case 3: { /* a well-formed SEQUENCE of two random INTEGERs */
+		uint8_t a[32], b[32]; rng_bytes(&r, a, 32); rng_bytes(&r, b, 32); a[0] &= 0x7f; b[0] &= 0x7f; a[0] |= 0x40; b[0] |= 0x40;
+		sig[0] = 0x30; sig[1] = 68; sig[2] = 0x02; sig[3] = 32; memcpy(sig + 4, a, 32); sig[36] = 0x02; sig[37] = 32; memcpy(sig + 38, b, 32);
+		*siglen = 70; break; }
+	case 4: *siglen = 0; break;                                                                       /* empty */
+	default: sig[0] = 0x31; break;                                                                    /* the real bytes under a SET tag */
+	}
+	return 1;
 }
